@@ -23,7 +23,14 @@ The printer tests its dialect argument at exactly these places (`grep 'd ==\|d !
 * `refusal_propagates…` — a construct at ANY position and depth, printed for a dialect outside its set: an error, never text.
 * `printed_ok_means_supported…` — contrapositive.
 * `dialects_agree…` / `dialect_irrelevant_otherwise…` — two dialects print a tree identically unless it contains a
-  construct of the table on which the two dialects differ; a tree with none of them prints identically everywhere.
+  construct of the table on which the two dialects differ; a tree with none of them prints identically everywhere;
+  `same_class_same_text`: on query trees the printer distinguishes only five classes of dialects.
+* `refusal_is_notSupported…` / `refusal_in_family` — on well-formed trees the refusal is exactly the not-supported error
+  (statements: an error of the library's parse-error family).
+* `printable_iff` / `printable_stmt` / `C01.print_total_on_default…` — exactly which trees each dialect prints.
+
+Not covered (visible as hypotheses `stmtIll`, `stmtDep`, and in `PR.anyStmt`'s doc): the expressions inside column
+definitions of CREATE / ALTER TABLE and the PARTITION of ANALYZE TABLE — dialects skip them on purpose (C18's subject).
 -/
 namespace C13
 open Ast PR
